@@ -8,6 +8,7 @@ Not decided: reward values (Jaccard, L1).
 import ast
 
 from ..model import walk_shallow, call_name, is_self_attr, dotted_name, parent, ancestors, enclosing_function, rename_copy
+from ..util import canon
 from ..util import (has_call, find_calls, assigned_value, const_str, unparse, kw, arg_or_kw, enclosing_stmt,
                     guards_of, call_tail, control_ancestors, alpha)
 from .. import mutate as M
@@ -85,6 +86,7 @@ def run(ctx):
     r8_reader_rows(ctx)
     r9_label_key_domain(ctx)
     r10_take_and_levels(ctx)
+    r11_label_position(ctx)
 
 
 def _final_loops(fn):
@@ -224,6 +226,13 @@ def r7_reward_definitions(ctx, fn):
     oki = bool(incs) and all(isinstance(i.value, ast.Compare) and isinstance(i.value.ops[0], ast.In) and unparse(i.value.comparators[0]) in true_names for i in incs)
     loop_ok = all(any(isinstance(a, ast.For) and unparse(a.target) == unparse(i.value.left) for a in ancestors(i)) for i in incs) if oki else False
     ctx.ob("C14.R7", PRIM, "HammingReward.__call__", incs[0] if incs else call, "the numerator counts the chosen labels that are in the true label set", oki and loop_ok, stmt="jaccard numerator")
+    # a multi-label simulation offers single labels: HammingReward turns a non-list action into the singleton set before it iterates it
+    loops_h = [x for x in ast.walk(call) if isinstance(x, ast.For)]
+    CMP = unparse(loops_h[0].iter) if loops_h else None
+    wraps = [st for st in walk_shallow(call) if isinstance(st, ast.If) and CMP and any(isinstance(k, ast.Call) and call_name(k) == "isinstance" and unparse(k.args[0]) == CMP for k in ast.walk(st.test))
+             and isinstance(st.test, ast.UnaryOp) and any(isinstance(b, ast.Assign) and unparse(b.targets[0]) == CMP and unparse(b.value) == f"[{CMP}]" for b in st.body)]
+    ctx.ob("C14.R7", PRIM, "HammingReward.__call__", (wraps or [call])[0], "an action that is a single label (not a list/tuple) is scored as the one-element set", bool(wraps) and bool(loops_h) and wraps[0].lineno < loops_h[0].lineno,
+           stmt="single label as singleton")
     # BinaryReward: value iff the action EQUALS the label (value equality -- two Categoricals with the same level but different level lists are the same label)
     bcall = ctx.fn(PRIM, "BinaryReward.__call__")
     arg_names = {"self._argmax"} | {t.id for x in walk_shallow(bcall) if isinstance(x, ast.Assign) and unparse(x.value) == "self._argmax" for t in x.targets if isinstance(t, ast.Name)}
@@ -318,6 +327,27 @@ def r10_take_and_levels(ctx):
                bool(dedup_rebind) or (direct and not any(isinstance(v, ast.Name) for v in srcs)), detail={"levels": unparse(lv)}, stmt="levels de-duplicated")
 
 
+def r11_label_position(ctx, rule="C14.R11"):
+    """'all label columns (by index or header)': the parts of a labelled dense row (label = row[ind], feats = DropOne(row, ind)) do position arithmetic
+    (`key >= ind`, islice(row, ind)) that is only right for a position counted from the front."""
+    ctx.rule(rule, "LabelRows hands LabelDense a position counted from the front: a negative label index is normalised (ind += len(first)) before the labelled rows are built, "
+                   "because DropOne compares and slices with it")
+    fn = ctx.fn(ROWS, "LabelRows.filter")
+    uses = [c for c in ast.walk(fn) if isinstance(c, ast.Call) and any(unparse(a) == "LabelDense" or (isinstance(a, ast.Name) and a.id == "LabelDense") for a in [c.func] + list(c.args))]
+    ctx.floor(rule, "constructions of LabelDense in LabelRows.filter", len(uses), 1)
+    for c in uses:
+        inds = [a.args[0].id for a in c.args if isinstance(a, ast.Call) and call_name(a) == "repeat" and a.args and isinstance(a.args[0], ast.Name)][:1] or \
+               [a.id for a in c.args[1:2] if isinstance(a, ast.Name)]
+        IND = inds[0] if inds else None
+        norm = [st for st in walk_shallow(fn) if isinstance(st, ast.If) and IND and canon(unparse(st.test)) == canon(f"{IND} < 0") and
+                any(isinstance(b, ast.AugAssign) and unparse(b.target) == IND and isinstance(b.op, ast.Add) and unparse(b.value).startswith("len(") for b in st.body)]
+        ctx.ob(rule, ROWS, "LabelRows.filter", c, "the label position reaching LabelDense was normalised to a position from the front", bool(norm) and norm[0].lineno < c.lineno,
+               detail={"position variable": IND})
+    d1 = ctx.fn(ROWS, "DropOne.__getitem__")
+    arith = any(isinstance(x, ast.Compare) and "self._ind" in unparse(x) and isinstance(x.ops[0], (ast.GtE, ast.Gt, ast.Lt, ast.LtE)) for x in ast.walk(d1))
+    ctx.note(f"{rule}: DropOne compares the access key with its index: {arith}")
+
+
 def r9_label_key_domain(ctx):
     """LabelSparse reads the label with row[key] and removes it with DropSparse(row, {key}), which compares `key` against row.keys().
     Both agree only if every key row[...] accepts is a key row.keys() reports."""
@@ -348,6 +378,8 @@ def r9_label_key_domain(ctx):
 
 
 CONTROLS = [
+    ("HammingReward iterates whatever action it gets", PRIM, M.delete_stmt("HammingReward.__call__", M.text_has("comparable = [comparable]")), "C14.R7"),
+    ("negative label positions reach DropOne", ROWS, M.delete_stmt("LabelRows.filter", M.text_has("ind += len(first)")), "C14.R11"),
     ("categorical labels compared by level index", PRIM, M.replace_expr("BinaryReward.__call__", "argmax == comparable", "(argmax.as_int == comparable.as_int if argmax.__class__ is Categorical and comparable.__class__ is Categorical else argmax == comparable)"), "C14.R7"),
     ("levels keep their duplicates", "coba/encodings.py", M.delete_stmt("CategoricalEncoder.__init__", lambda st: isinstance(st, ast.If) and "set_values" in ast.unparse(st.test)), "C14.R10"),
     ("Reservoir keeps its generator", "coba/pipes/filters.py", M.chain(M.insert_after("Reservoir.__init__", M.simple_has("self._seed = seed"), "self._rng = CobaRandom(seed)"),
